@@ -26,6 +26,16 @@ class Inconclusive(Exception):
     """Infrastructure problem: exit 2, never a violation."""
 
 
+class LibraryCrash(Exception):
+    """The harness process died with a panic / fatal error whose stack is in library code (DESIGN.md section 5)."""
+
+    def __init__(self, test, text):
+        Exception.__init__(self, "library code crashed during %s" % test)
+        self.test, self.text = test, text
+        m = re.search(r"^github\.com/bool64/cache\.(.+)\(.*\)$", text, re.M)
+        self.where = m.group(1) if m else "?"
+
+
 def log(*a):
     print(*a, flush=True)
 
@@ -263,6 +273,18 @@ def run_harness(test, env, timeout=900, race=False, wd=None):
         except ValueError:
             res = None
     if res is None:
+        out = p.stdout
+        crash = re.search(r"^(panic: |fatal error: )", out, re.M)
+        if crash:
+            tail = out[crash.start():]
+            first = re.search(r"^goroutine \d+ .*?:\n((?:.+\n)+?)\n", tail, re.M)
+            stack = first.group(1) if first else tail[:3000]
+            # the panic counts against the library only if a library frame is above the first harness frame
+            lines = [l for l in stack.splitlines() if not l.startswith("\t")]
+            lib = next((i for i, l in enumerate(lines) if l.startswith("github.com/bool64/cache.")), None)
+            har = next((i for i, l in enumerate(lines) if l.startswith("verif/harness")), None)
+            if lib is not None and (har is None or lib < har):
+                raise LibraryCrash(test, tail[:6000])
         raise Inconclusive("harness %s produced no result (exit %d):\n%s" % (test, p.returncode, p.stdout[-4000:]))
     res["_stdout"] = p.stdout[-20000:]
     res["_exit"] = p.returncode
